@@ -1456,7 +1456,7 @@ def gen_xhistory(rng, hid):
         elif u < 0.70:
             k = rng.randrange(4)
             need = max([i + 1 for kk, i in referenced(c) if kk == k] + [0])
-            ln = max(0, need + rng.choice([0, 0, 1, -1]))
+            ln = max(1 if k in (0, 1) else 0, need + rng.choice([0, 0, 1, -1]))     # states / povms never become empty (the generator needs them)
             l = [rng.randrange(ncat[k]) for _ in range(ln)]
             if ln >= need:
                 c["lists"][k] = list(l)
